@@ -1,6 +1,6 @@
 CONSTANTS
   Ids = {"a"}
-  Rich = 1
+  Rich = 0
   SimLen = 4
   Sim = FALSE
 INIT GInit
